@@ -203,6 +203,12 @@ fn is_canonical_atom(f: &mut Cursor<&[u8]>, first_byte: u8) -> bool {
     atom_len >= min_value
 }
 
+/// verification hook: exposes the private canonical-atom check to the harness crate
+#[cfg(chia_network_clvm_rs_verif)]
+pub fn verif_is_canonical_atom(f: &mut Cursor<&[u8]>, first_byte: u8) -> bool {
+    is_canonical_atom(f, first_byte)
+}
+
 pub fn is_canonical_serialization(b: &[u8]) -> bool {
     let mut f = Cursor::new(b);
     let mut counter = 1;
